@@ -316,6 +316,11 @@ def run_density(out, ctx):
 
 # --------------------------------------------------------------------------- sampling and affine operations
 
+def same(got, want, shape, atol=1e-12):
+    """public value has exactly the documented shape and the expected entries"""
+    return tuple(got.shape) == tuple(shape) and torch.allclose(got, want.expand(*shape), atol=atol)
+
+
 def run_sampling_affine(out, ctx):
     from gpytorch.distributions import MultivariateNormal as MVN
     seed = ctx["seed"]
@@ -330,21 +335,33 @@ def run_sampling_affine(out, ctx):
                 # variance / stddev / confidence region
                 out.case(dict(case, what="variance"), nt, label="variance")
                 var = cov.diagonal(dim1=-1, dim2=-2)
-                if not (torch.allclose(d.variance, var, atol=1e-12) and torch.allclose(d.stddev, var.sqrt(), atol=1e-12)):
-                    out.fail("variance:%s" % rep, "variance / stddev are not diag / sqrt(diag)", case, impl=d.variance, model=var)
-                lo, hi = d.confidence_region()
-                if not (torch.allclose(lo, mean - 2 * var.sqrt(), atol=1e-12) and torch.allclose(hi, mean + 2 * var.sqrt(), atol=1e-12)):
-                    out.fail("confidence_region:%s" % rep, "confidence_region != mean -/+ 2 stddev", case)
-                if not torch.allclose(d.variance, var, atol=1e-12):
-                    out.fail("confidence_region:%s:mutates" % rep, "confidence_region changed the variance it reports afterwards", case)
-                if not (torch.allclose(d.covariance_matrix, cov, atol=1e-12) and torch.equal(d.mean, mean)):
-                    out.fail("ctor:%s" % rep, "mean / covariance_matrix are not the ones passed in", case)
+                try:
+                    full = tuple(bshape) + (n,)
+                    if not (same(d.variance, var, full) and same(d.stddev, var.sqrt(), full)):
+                        out.fail("variance:%s" % rep, "variance / stddev are not diag / sqrt(diag)", case, impl=d.variance, model=var)
+                    lo, hi = d.confidence_region()
+                    if not (same(lo, mean - 2 * var.sqrt(), full) and same(hi, mean + 2 * var.sqrt(), full)):
+                        out.fail("confidence_region:%s" % rep, "confidence_region != mean -/+ 2 stddev", case,
+                                 impl=[lo, hi], model=[mean - 2 * var.sqrt(), mean + 2 * var.sqrt()])
+                    if not same(d.variance, var, full):
+                        out.fail("confidence_region:%s:mutates" % rep, "confidence_region changed the variance it reports afterwards", case)
+                    if not (torch.allclose(d.covariance_matrix, cov, atol=1e-12) and torch.equal(d.mean, mean)):
+                        out.fail("ctor:%s" % rep, "mean / covariance_matrix are not the ones passed in", case)
+                    if tuple(d.batch_shape) != tuple(bshape) or tuple(d.event_shape) != (n,):
+                        out.fail("ctor:%s:shape" % rep, "batch_shape / event_shape are not those of the broadcast arguments", case,
+                                 impl=[list(d.batch_shape), list(d.event_shape)])
+                except Exception as ex:
+                    out.fail("variance:%s:raises-%s" % (rep, exc_name(ex)), "variance / stddev / confidence_region raised %r" % ex, case)
                 # rsample with base samples
-                root = d.lazy_covariance_matrix.root_decomposition().root.to_dense()
-                r = root.shape[-1]
-                bsz = d.base_sample_shape[-1]
+                try:
+                    root = d.lazy_covariance_matrix.root_decomposition().root.to_dense()
+                    r = root.shape[-1]
+                    bsz = d.base_sample_shape[-1]
+                except Exception as ex:
+                    out.fail("rsample:%s:root:raises-%s" % (rep, exc_name(ex)), "root_decomposition / base_sample_shape raised %r" % ex, case)
+                    root = None
                 g = torch.Generator().manual_seed(n + len(bshape))
-                for ss in ((), (3,), (2, 2)):
+                for ss in ((), (3,), (2, 2)) if root is not None else ():
                     e = dyadic(g, *ss, *bshape, bsz)
                     out.case(dict(case, what="rsample", sample_shape=list(ss)), nt, label="rsample")
                     try:
@@ -372,10 +389,17 @@ def run_sampling_affine(out, ctx):
                             rs_cases.append("(%d%%nat, %d%%nat, %s, %s, %s)" % (
                                 n, r, C.qc_vec(mean[b].tolist()), C.qc_mat(rootb[b].tolist()), C.qc_vec(flat_e[si][b].tolist())))
                 torch.manual_seed(seed)
-                for ss in ((), (3,), (2, 2)):
-                    s0 = d.rsample(torch.Size(ss))
+                for ss in ((), (1,), (2,), (3,), (2, 2)):
+                    out.case(dict(case, what="rsample-drawn", sample_shape=list(ss)), nt, label="rsample-drawn")
+                    try:
+                        s0 = d.rsample(torch.Size(ss))
+                    except Exception as ex:
+                        out.fail("rsample:%s:sample-shape:raises-%s" % (rep, exc_name(ex)),
+                                 "rsample(sample_shape) raised %r" % ex, dict(case, sample_shape=list(ss)))
+                        continue
                     if s0.shape != tuple(ss) + tuple(bshape) + (n,):
-                        out.fail("rsample:%s:sample-shape" % rep, "rsample(sample_shape) has shape %s" % (tuple(s0.shape),), case)
+                        out.fail("rsample:%s:sample-shape" % rep, "rsample(sample_shape) has shape %s" % (tuple(s0.shape),),
+                                 dict(case, sample_shape=list(ss)))
                 # scalar ops, through the Coq model on batch element 0
                 for op, (name, c, fn) in enumerate([("add", 2.5, lambda x, c: x + c), ("mul", -1.5, lambda x, c: x * c),
                                                     ("div", 4.0, lambda x, c: x / c), ("jitter", 0.125, lambda x, c: x.add_jitter(c))]):
@@ -390,8 +414,11 @@ def run_sampling_affine(out, ctx):
                     af_jobs.append((dict(case, what=name, c=c), m2.expand(*bshape, n)[b0], c2.expand(*bshape, n, n)[b0],
                                     v2.expand(*bshape, n)[b0], len(af_cases)))
                     af_cases.append("(%d%%nat, %d, %s, %s, %s)" % (n, op, C.qc_lit(c), C.qc_vec(mean[b0].tolist()), C.qc_mat(cov[b0].tolist())))
-                if (d * 1) is not d and not torch.equal((d * 1).mean, mean):
-                    out.fail("mul:one", "d * 1 changes the distribution", case)
+                try:
+                    if (d * 1) is not d and not torch.equal((d * 1).mean, mean):
+                        out.fail("mul:one", "d * 1 changes the distribution", case)
+                except Exception as ex:
+                    out.fail("mul:%s:raises-%s" % (rep, exc_name(ex)), "d * 1 raised %r" % ex, case)
                 # sum of independent MVNs (every representation pair)
                 for rep2 in REPS:
                     d2, mean2, cov2 = make(n, bshape, rep2, seed=seed + 17)
@@ -468,9 +495,15 @@ def run_sampling_affine(out, ctx):
 # --------------------------------------------------------------------------- entry points
 
 def run(out, ctx):
-    run_sampling_affine(out, ctx)
-    run_density(out, ctx)
-    run_getitem(out, ctx)
+    import traceback
+    for part in (run_sampling_affine, run_density, run_getitem):
+        try:
+            part(out, ctx)
+        except Exception:       # an implementation exception outside a guarded call: report it, keep going with the other parts
+            tb = traceback.format_exc()
+            C.log(tb)
+            out.fail("harness:%s:crash" % part.__name__, "this part of the check could not be completed on the current tree: " + tb[-1200:],
+                     None, no_input=True)
     out.exhaustive = True
     out.rule = ("event sizes 1..4, batch shapes (), (2,), (2,3); covariance as dense tensor / DiagLinearOperator / RootLinearOperator "
                 "(rank n-1) / lazy sum / broadcast (covariance batch smaller than the mean's; dense and lazy); indexing: under every batch prefix "
